@@ -30,8 +30,8 @@ func init() {
 
 func runC14(x *Ctx) {
 	x.C.Rule("C14.R1", "tokenize partitions the input: no tail is dropped", 3)
-	x.C.Rule("C14.R2", "each token yields exactly one segment printing as that token, or an error; slice tokens have exactly two parts; quoted lookups are fields; the whole token is examined", 6)
-	x.C.Rule("C14.R3", "policy tuple positions and arities agree between decoder and encoder; data values are kept verbatim", 7)
+	x.C.Rule("C14.R2", "each token yields exactly one segment printing as that token, or an error; slice tokens have exactly two parts; quoted lookups are fields; the whole token is examined; field names verbatim", 7)
+	x.C.Rule("C14.R3", "policy tuple positions and arities agree between decoder and encoder; data values are kept verbatim", 8)
 
 	if f := x.fn("C14.R1", selPkg+"tokenize"); f != nil {
 		tokenizeRule(x, f)
@@ -368,6 +368,45 @@ func parseAppendRule(x *Ctx, f *ssa.Function) {
 		}
 	}
 	x.C.Obl("C14.R2", "returns-all:Parse", x.pos(f), "after the last token Parse returns the accumulated selector", okRet, "")
+	// the name of a field segment is a contiguous piece of the token: sub-slices (and the removal of the optional
+	// markers / of the leading dot) only. A trimming function with a cut set, a replacement, a case change would
+	// make two different quoted keys select the same field.
+	{
+		allowedF := map[string]bool{"strings.TrimRight": true, "strings.TrimSuffix": true, "strings.TrimPrefix": true, "strings.CutPrefix": true, "strings.CutSuffix": true}
+		badF, nF := "", 0
+		for _, p := range ps {
+			if p.End != paths.EndLatch || !p.EntersBody(l) {
+				continue
+			}
+			nv := p.LatchValue(sel)
+			if nv == nil || nv.Op != "call" || len(nv.Args) != 2 || nv.Args[1].Op != "varargs" || len(nv.Args[1].Args) != 1 {
+				continue
+			}
+			cell := paths.CellOf(nv.Args[1].Args[0])
+			if cell == nil {
+				continue
+			}
+			fs := p.FieldStores(cell)
+			if fs["isField"] == nil || !fs["isField"].IsConst("true") || fs["field"] == nil {
+				continue
+			}
+			nF++
+			fs["field"].Walk(func(t *paths.Term) {
+				if t.Op != "call" && t.Op != "invoke" && t.Op != "dyncall" {
+					return
+				}
+				if t.Name == selPkg+"tokenize" {
+					return
+				}
+				if !allowedF[t.Name] {
+					badF += fmt.Sprintf("the name of a field segment is computed with %s: not a contiguous piece of the token\n", t.Name)
+				} else if len(t.Args) == 2 && !(t.Args[1].String() == `const("?")` || t.Args[1].String() == `const(".")`) {
+					badF += fmt.Sprintf("the name of a field segment is computed with %s(_, %s)\n", t.Name, t.Args[1])
+				}
+			})
+		}
+		x.C.Obl("C14.R2", "field-name-verbatim:Parse", x.pos(f), "the name of a field segment is a contiguous piece of its token", badF == "" && nF > 0, dedupLines(badF))
+	}
 	// the whole token is looked at: the text that is classified is the token minus a suffix of optional markers
 	// (HasSuffix / TrimRight / TrimSuffix with "?"); a function that cuts the token somewhere else (Cut, Split,
 	// Index, Fields, Trim, Replace ...) lets text after the cut go unexamined
@@ -412,6 +451,7 @@ func tupleAgreement(x *Ctx) {
 		pos   map[string]int
 	}
 	encT := map[string]*table{}
+	encRender := ""
 	// --- encoder
 	sel, _, err := x.E.Select(enc, paths.WantSuccess)
 	if err != nil {
@@ -438,8 +478,23 @@ func tupleAgreement(x *Ctx) {
 				}
 			}
 			if ct.Op == "invoke" && strings.Contains(ct.Name, "NodeAssembler.Assign") && len(ct.Args) == 2 && strings.Contains(ct.Args[0].String(), "ListAssembler.AssembleValue") {
-				t.pos[fieldOfValue(ct.Args[1], typ)] = k
+				fld := fieldOfValue(ct.Args[1], typ)
+				t.pos[fld] = k
 				k++
+				// what is written is the field in its one wire rendering: the node itself, the text of a pattern (a
+				// conversion), Selector.String(), the recursive encoders, Kind(); any other function applied on
+				// the way (quoting, escaping, normalising) is not undone by the decoder
+				ct.Args[1].Walk(func(w *paths.Term) {
+					if w.Op != "call" && w.Op != "invoke" && w.Op != "dyncall" {
+						return
+					}
+					switch {
+					case w.Name == "(pkg/policy/selector.Selector).String", w.Name == "pkg/policy.statementToIPLD", w.Name == "pkg/policy.statementsToIPLD",
+						strings.HasSuffix(w.Name, ").Kind"), strings.HasSuffix(w.Name, "Statement.Kind"):
+					default:
+						encRender += fmt.Sprintf("%s.%s is written as %s: %s is applied to it and the decoder does not undo that\n", typ, fld, ct.Args[1], w.Name)
+					}
+				})
 			}
 		}
 		if old, ok := encT[typ]; ok && fmt.Sprint(old.pos) != fmt.Sprint(t.pos) {
@@ -508,6 +563,7 @@ func tupleAgreement(x *Ctx) {
 		}
 		decT[typ] = t
 	}
+	x.C.Obl("C14.R3", "encoder-rendering", x.pos(enc), "every field is written in its wire rendering (node, pattern text, Selector.String, nested statements, kind) and nothing else is applied to it", encRender == "", dedupLines(encRender))
 	var vk []string
 	for k := range verbatim {
 		vk = append(vk, k)
